@@ -90,7 +90,9 @@ pub fn analyze_rows(egraph: &EGraph, enode: &Expr) -> Rows {
         Xor([a, b]) => x(a) + x(b) - 2.0 * x(a) * x(b),
         Not(a) => 1.0 - x(a),
         Gt(_) | Lt(_) | GtEq(_) | LtEq(_) | Eq(_) | NotEq(_) | Like(_) => 0.5,
-        In([_, b]) => 1.0 / x(b),
+        // a selectivity is at most 1, also for a subquery estimated at less than one row
+        // (`not (in ..)` would become negative, and with it the rows and the cost of plans)
+        In([_, b]) => (1.0 / x(b)).min(1.0),
         Exists(_) => 0.5,
 
         _ => 1.0,
